@@ -8,13 +8,16 @@
    stop the bar reaches, always get a fill proposed, hence are completely filled funds permitting.
    Limit orders likewise: a bar whose range reaches the limit fills the whole pending amount, funds permitting; the
    premise "something is pending" holds for every open order of every reachable state.
-   C04_partial: these completeness theorems are per processed order; that every open order of a pair is processed by every
-   bar of that pair is the index theorem of C05 (IndexProofs.v) and is composed with them only for market / stop orders
-   (FirstBar.v); the monitor checks the sentence end to end on ample-funds histories. *)
+   Over whole histories (CompleteHist.v): after a bar of its pair that was processed without an internal error, every
+   market / stop order that was open before it is closed with its whole amount traded, or with nothing traded for a reason
+   named at the moment its turn came; with unlimited liquidity a market order is completely filled by the next bar of its
+   pair unless the fill rounds to nothing or funds are lacking.
+   C04_partial: for limit orders the completeness theorem is per processed order (that every open order of the pair is
+   visited by every bar of the pair is the index theorem of C05); the monitor checks the sentence end to end. *)
 From Coq Require Import ZArith QArith List.
 From Basana Require Import Num.DecQ Num.DecQProofs Exchange.Model Exchange.OrderProofs
      Exchange.Structure Exchange.FeeHistory Exchange.LimitHistory Exchange.FillTimes Exchange.NoPartial Exchange.FirstBar
-     Exchange.Complete Exchange.Prims.
+     Exchange.Complete Exchange.CompleteHist Exchange.Prims.
 Import ListNotations.
 Open Scope Q_scope.
 
@@ -223,4 +226,43 @@ Proof.
   - eexists. split; [vm_compute; reflexivity|]. split; [reflexivity|]. split; [reflexivity|]. split; [reflexivity|]. split.
     + apply (Hn 400 0%nat). vm_compute. reflexivity.
     + eexists. eexists. split; vm_compute; reflexivity.
+Qed.
+
+(* whole history: after a bar of its pair, processed without an internal error, every market / stop order that was open
+   before it is closed, having traded its whole amount -- or nothing, for a reason named at the moment its turn came (the
+   liquidity then left, the state then reached) *)
+Theorem C04_market_and_stop_orders_filled_by_the_next_bar : forall c initial ops p when b s',
+  cfg_ok c -> ops_ok (ops ++ [OBar p when b]) ->
+  let s := run c (init_st initial) ops in
+  step c s (OBar p when b) = (s', ROk) ->
+  forall j o0, get_order s j = Some o0 -> is_open o0 = true -> aon (o_kind o0) -> pair_eqb (o_pair o0) p = true ->
+  exists o', get_order s' j = Some o' /\ is_open o' = false /\
+    (filled o' == o_amount o0 \/
+     (filled o' == 0 /\ why_unfilled c o0 b (match c_liq c with InfLiq => true | _ => false end))).
+Proof. exact market_and_stop_orders_filled_by_the_next_bar. Qed.
+Print Assumptions C04_market_and_stop_orders_filled_by_the_next_bar.
+
+(* "with unlimited liquidity and ample funds a market order is completely filled by the next bar of its pair" *)
+Theorem C04_market_orders_filled_by_the_next_bar_funds_permitting : forall c initial ops p when b s',
+  c_liq c = InfLiq -> ops_ok (ops ++ [OBar p when b]) ->
+  let s := run c (init_st initial) ops in
+  step c s (OBar p when b) = (s', ROk) ->
+  forall j o0, get_order s j = Some o0 -> is_open o0 = true -> o_kind o0 = KMarket -> pair_eqb (o_pair o0) p = true ->
+  exists o', get_order s' j = Some o' /\ is_open o' = false /\
+    (filled o' == o_amount o0 \/
+     (filled o' == 0 /\ ((exists l, rounds_to_nothing c l o0 b) \/ (exists s_mid, refused_for_funds c s_mid o0)))).
+Proof. exact market_orders_filled_by_the_next_bar_funds_permitting. Qed.
+Print Assumptions C04_market_orders_filled_by_the_next_bar_funds_permitting.
+
+Example C04_history_completeness_premises_met :
+  let c := mkCfg [(1%positive, 2%nat); (2%positive, 2%nat)] [] None NoFee InfLiq NoLoans in
+  let p := (1%positive, 2%positive) in
+  let ops := [OBar p 60%Z (mkBar 50 50 50 50 10); OCreate KMarket Buy p 5 false false; OCreate KMarket Buy p 9 false false] in
+  let bar := OBar p 120%Z (mkBar 100 101 99 100 10) in
+  let s := run c (init_st [(2%positive, 1000)]) ops in
+  c_liq c = InfLiq /\ ops_ok (ops ++ [bar]) /\ snd (step c s bar) = ROk /\
+  map (fun o => (is_open o, o_kind o)) (s_orders s) = [(true, KMarket); (true, KMarket)] /\
+  map (fun o => (is_open o, Qred (filled o))) (s_orders (fst (step c s bar))) = [(false, 5); (false, 0)].
+Proof.
+  cbv zeta. split; [reflexivity|]. split; [repeat constructor; cbn; discriminate|]. vm_compute. repeat split; reflexivity.
 Qed.
